@@ -39,7 +39,14 @@ def run_one(spec, prop, tier, seed, variant, script, deadline, extra):
     # high-entropy ASLR (vm.mmap_rnd_bits = 28 here: "ThreadSanitizer failed to allocate ..."): run them with ASLR off
     pre = ["setarch", "x86_64", "-R"] if variant in ("tsan", "asan") and shutil.which("setarch") else []
     cmd = pre + [pybuild.PY, os.path.join(check.VERIF, "py", script), "--tier", tier, "--seed", str(seed), "--out", out, "--deadline", str(deadline)] + extra
-    p = subprocess.run(cmd, env=env, cwd=check.VERIF)
+    # hard stop: the scripts honour --deadline themselves (and kill workers that outlive it); this only guarantees that the
+    # check terminates if the script itself wedges
+    try:
+        p = subprocess.run(cmd, env=env, cwd=check.VERIF, timeout=3 * deadline + 900, start_new_session=True)
+    except subprocess.TimeoutExpired:
+        subprocess.run(["pkill", "-9", "-f", os.path.join(check.VERIF, "py", script)])
+        check.log("HARNESS-ERROR: %s did not terminate within %d s" % (script, 3 * deadline + 900))
+        return None
     if p.returncode != 0 or not os.path.exists(out):
         check.log("HARNESS-ERROR: %s exited with %d" % (script, p.returncode))
         return None
